@@ -191,7 +191,7 @@ structure DSt where
   shifts : Array (List (Rect × Int × Int)) := #[]
   closed : Array Bool := #[]
   prevGrid : Option (Array (Array Cell)) := none     -- the implementation's grid before this operation
-  unclipped : Bool := false     -- the history scrolled a region extending beyond an ancestor's bounds (known finding)
+  unclipped : Bool := false     -- the history scrolled a region extending beyond an ancestor's bounds (diagnostic note only; the defect it pointed at is repaired: 8032ab5)
   -- specification state: from the operation lines and the implementation's observations only
   obsTree : Option Tree := none                      -- the implementation's tree as observed after the previous operation
   zKids : Array (List Id) := #[]                     -- abstract child lists (front-most first), by parent id
